@@ -381,4 +381,130 @@ ALLOCATE_CONTRACT(Q_AL, RQ_AL, bytes, alignment);
 void *ExclusiveMonotonicBufferResource_allocate__8(R_t *r, unsigned long bytes)
 ALLOCATE_CONTRACT(Q_AL8, RQ_AL8, bytes, 8UL);
 
+
+/* ======================================================================================================
+ * BOUNDED stand-in (never counted as proved): destruct_all() and release() on explicitly built heaps.
+ * Bound: page size 512; at most 2 PageArrays, 2 OversizePageArrays, 2 DestroyTaskArrays (the newest one filled to a
+ * nondeterministic level, older ones full); every array is hosted inside one of the pages / upstream blocks that the
+ * arrays themselves record (including the page an array lists for itself -- the copy-out-before-free case).
+ * The page allocator and the upstream are executable stubs that really free() what they are given, so a double return,
+ * a wrong pointer or a read of bookkeeping after its host was returned is a CBMC pointer-check failure; sizes and
+ * alignments are compared with what was recorded at construction; counters prove nothing is left behind.
+ * ==================================================================================================== */
+#ifdef VF_BOUNDED_RELEASE
+#include <stdlib.h>
+#define B_PS 512UL
+unsigned nondet_uint(void);
+static unsigned b_pages_made, b_pages_freed, b_blocks_made, b_blocks_freed, b_dtor_expected, b_dtor_calls;
+static char *b_block[32]; static size_t b_block_bytes[32], b_block_align[32]; static _Bool b_block_live[32];
+
+size_t PageAllocator_page_size(struct PageAllocator *self) { return B_PS; }
+void PageAllocator_deallocate__voidPP_u64(struct PageAllocator *self, void **pages, unsigned long num) {
+  __CPROVER_assert(num <= 15, "K4 C06.release batch fits the temporary array");
+  for (unsigned long i = 0; i < num; ++i) { b_pages_freed++; free(pages[i]); }   /* double/invalid free => pointer-check failure */
+}
+void std_pmr_memory_resource_deallocate(struct std_pmr_memory_resource *self, void *p, unsigned long bytes, unsigned long alignment) {
+  unsigned k = nondet_uint(); __CPROVER_assume(k < b_blocks_made && b_block[k] == (char *)p);
+  __CPROVER_assert(b_block_live[k], "K1 C06.release every oversize block goes back upstream at most once");
+  __CPROVER_assert(b_block_bytes[k] == bytes && b_block_align[k] == alignment, "K1 C06.release oversize block returned with the size and alignment it was obtained with");
+  b_block_live[k] = 0; b_blocks_freed++; free(p);
+}
+static void b_dtor(void *p) {
+  __CPROVER_assert((size_t)p == b_dtor_calls, "K1 C06.release destructors run exactly once each, newest first");
+  b_dtor_calls++;
+}
+static char *b_page(void) { b_pages_made++; return (char *)malloc(B_PS); }
+static char *b_upblock(size_t bytes, size_t al) { unsigned k = b_blocks_made++; b_block[k] = (char *)malloc(bytes); b_block_bytes[k] = bytes; b_block_align[k] = al; b_block_live[k] = 1; return b_block[k]; }
+
+/* build `n` (<=2) chained PageArrays; array a is placed 8-aligned inside page number `host` of its own list */
+static void b_build_pages(R_t *r) {
+  unsigned n = nondet_uint(); __CPROVER_assume(n <= 2);
+  PA_t *older = 0; r->_last_page_array = 0; r->_last_page_pointer = VF_NULL_LPP; r->_free_begin = r->_free_end = 0;
+  for (unsigned a = 0; a < n; ++a) {
+    unsigned first = (a + 1 == n) ? nondet_uint() : 0;      /* newest array: entries [first,15) are filled; older: full */
+    __CPROVER_assume(first <= 14);
+    char *pg[15];
+    for (unsigned i = first; i < 15; ++i) pg[i] = b_page();
+    unsigned host = nondet_uint(); size_t off = nondet_size_t();
+    __CPROVER_assume(host >= first && host < 15 && (off & 7) == 0 && off + SZ_PA <= B_PS);
+    PA_t *A = (PA_t *)(pg[host] + off);
+    A->next = older;
+    for (unsigned i = first; i < 15; ++i) A->pages[i] = pg[i];
+    older = A; r->_last_page_array = A; r->_last_page_pointer = &A->pages[first];
+    r->_free_begin = pg[first] + B_PS; r->_free_end = pg[first] + B_PS;
+  }
+  r->_space_allocated += (size_t)b_pages_made * B_PS;
+}
+static void b_build_oversize(R_t *r) {
+  unsigned n = nondet_uint(); __CPROVER_assume(n <= 2);
+  OA_t *older = 0; r->_last_oversize_page_array = 0; r->_last_oversize_page_pointer = VF_NULL_OPP;
+  for (unsigned a = 0; a < n; ++a) {
+    unsigned first = (a + 1 == n) ? nondet_uint() : 0; __CPROVER_assume(first <= 14);
+    /* the block that created the array hosts it behind its payload and is recorded in the last slot */
+    size_t payload = nondet_size_t(); __CPROVER_assume(payload <= 64 && (payload & 7) == 0);
+    char *hostb = b_upblock(payload + SZ_OA, 8);
+    OA_t *A = (OA_t *)(hostb + payload);
+    A->next = older;
+    A->pages[14].page = hostb; A->pages[14].bytes = payload + SZ_OA; A->pages[14].alignment = 8;
+    for (unsigned i = first; i < 14; ++i) {
+      size_t by = nondet_size_t(), al = nondet_size_t(); __CPROVER_assume(by >= 1 && by <= 64 && VF_POW2(al) && al <= 64);
+      A->pages[i].page = b_upblock(by, al); A->pages[i].bytes = by; A->pages[i].alignment = al;
+      r->_space_allocated += by;
+    }
+    r->_space_allocated += payload + SZ_OA;
+    older = A; r->_last_oversize_page_array = A; r->_last_oversize_page_pointer = &A->pages[first];
+  }
+}
+/* destroy-task arrays are ordinary blocks of the resource: they live inside pages; here inside the newest recorded page */
+static void b_build_tasks(R_t *r) {
+  unsigned n = nondet_uint(); __CPROVER_assume(n <= 2);
+  r->_last_destroy_task_array = 0; r->_last_destroy_task_pointer = (DT_t *)8;
+  char *host = (char *)malloc(2 * sizeof(DA_t));   /* stands for page memory holding the two blocks */
+  unsigned total = 0; unsigned firsts[2];
+  for (unsigned a = 0; a < n; ++a) { firsts[a] = (a + 1 == n) ? nondet_uint() : 0; __CPROVER_assume(firsts[a] <= 14); total += 15 - firsts[a]; }
+  DA_t *older = 0; unsigned seq = total;
+  for (unsigned a = 0; a < n; ++a) {
+    DA_t *A = (DA_t *)(host + a * sizeof(DA_t));          /* 2 * 248 <= 512 */
+    A->next = older;
+    /* iteration order of destruct_all: newest array first, ascending index; number the tasks in that order */
+    unsigned base = 0; for (unsigned b = a + 1; b < n; ++b) base += 15 - firsts[b];
+    for (unsigned i = firsts[a]; i < 15; ++i) { A->tasks[i].ptr = (void *)(size_t)(base + (i - firsts[a])); A->tasks[i].destructor = b_dtor; }
+    older = A; r->_last_destroy_task_array = A; r->_last_destroy_task_pointer = &A->tasks[firsts[a]];
+  }
+  b_dtor_expected = total;
+}
+static void b_null_pages(R_t *r) { r->_last_page_array = 0; r->_last_page_pointer = VF_NULL_LPP; r->_free_begin = r->_free_end = 0; }
+static void b_null_oversize(R_t *r) { r->_last_oversize_page_array = 0; r->_last_oversize_page_pointer = VF_NULL_OPP; }
+static void b_null_tasks(R_t *r) { r->_last_destroy_task_array = 0; r->_last_destroy_task_pointer = (DT_t *)8; }
+static void b_check_after_release(R_t *r) {
+  __CPROVER_assert(b_dtor_calls == b_dtor_expected, "K1 C06.release every registered destructor ran");
+  __CPROVER_assert(b_pages_freed == b_pages_made, "K1 C06.release every page went back to the page allocator exactly once");
+  __CPROVER_assert(b_blocks_freed == b_blocks_made, "K1 C06.release every oversize block went back upstream exactly once");
+  __CPROVER_assert(r->_last_page_array == 0 && r->_last_page_pointer == VF_NULL_LPP && r->_free_begin == 0 && r->_free_end == 0, "K2 C06.release pages part back in the null state");
+  __CPROVER_assert(r->_last_oversize_page_array == 0 && r->_last_oversize_page_pointer == VF_NULL_OPP, "K2 C06.release oversize part back in the null state");
+  __CPROVER_assert(r->_last_destroy_task_array == 0 && r->_last_destroy_task_pointer == (DT_t *)8, "K2 C06.release destroy-task part back in the null state (reusable)");
+  __CPROVER_assert(r->_space_used == 0 && r->_space_allocated == 0, "K1 C06.release accounting is zero");
+}
+void h_release_pages(void) {
+  R_t res; R_t *r = &res; r->_space_allocated = 0;
+  b_build_pages(r); b_null_oversize(r); b_null_tasks(r); r->_space_used = nondet_size_t();
+  ExclusiveMonotonicBufferResource_release(r);
+  b_check_after_release(r);
+  __CPROVER_assert(0, "VF_VACUITY_TWIN lemma reachable (must fail)");
+}
+void h_release_oversize(void) {
+  R_t res; R_t *r = &res; r->_space_allocated = 0;
+  b_null_pages(r); b_build_oversize(r); b_null_tasks(r); r->_space_used = nondet_size_t();
+  ExclusiveMonotonicBufferResource_release(r);
+  b_check_after_release(r);
+  __CPROVER_assert(0, "VF_VACUITY_TWIN lemma reachable (must fail)");
+}
+void h_release_tasks(void) {
+  R_t res; R_t *r = &res; r->_space_allocated = 0;
+  b_null_pages(r); b_null_oversize(r); b_build_tasks(r); r->_space_used = nondet_size_t();
+  ExclusiveMonotonicBufferResource_release(r);
+  b_check_after_release(r);
+  __CPROVER_assert(0, "VF_VACUITY_TWIN lemma reachable (must fail)");
+}
+#endif
 #endif
